@@ -16,22 +16,41 @@ MCListPerLength == { <<Iv(NoBound, NoBound)>>,
                      <<Iv(NoBound, At(Lo + 1)), Iv(At(Lo + 1), At(Lo + 2)), Iv(At(Lo + 2), NoBound)>> }
 MCThreeShards == { <<Iv(At(Lo), At(Lo + 1)), Iv(At(Lo + 1), At(Lo + 2)), Iv(At(Lo + 2), NoBound)>> }
 
+\* deployments: every shard its own base URI and key (the classic one) ...
+MCDepClassic == {[uri |-> <<1, 2, 3>>, key |-> <<1, 2, 3>>]}
+\* ... and shared ones: one frontend with different keys / one key / a first or middle shard without key; one key behind
+\* three frontends; two of three shards behind one frontend; URI shared with one neighbour, key with the other
+MCDepOneFrontend == {[uri |-> <<1, 1, 1>>, key |-> <<1, 2, 3>>]}
+MCDepShared == MCDepOneFrontend \cup
+               {[uri |-> <<1, 1, 1>>, key |-> <<1, 1, 1>>],
+                [uri |-> <<1, 2, 3>>, key |-> <<1, 1, 1>>],
+                [uri |-> <<1, 1, 1>>, key |-> <<Unkeyed, 2, 3>>],
+                [uri |-> <<1, 1, 1>>, key |-> <<1, Unkeyed, 3>>],
+                [uri |-> <<1, 2, 1>>, key |-> <<1, 2, 3>>],
+                [uri |-> <<1, 2, 2>>, key |-> <<1, 2, 1>>]}
+MCDepAll == MCDepClassic \cup MCDepShared
+MCDepFew == MCDepClassic \cup MCDepOneFrontend \cup {[uri |-> <<1, 1, 1>>, key |-> <<1, 1, 1>>]}
+\* quick tier: the classic one, one frontend with different keys, (exports of the server classes:) one key behind three
+\* frontends and a first shard without key behind a shared frontend
+MCDepRoute == MCDepClassic \cup MCDepOneFrontend
+MCDepQuick == MCDepRoute \cup {[uri |-> <<1, 2, 3>>, key |-> <<1, 1, 1>>], [uri |-> <<1, 1, 1>>, key |-> <<Unkeyed, 2, 3>>]}
+
 ASSUME \A S \in MCAllLists \cup MCFewLists \cup MCListPerLength : ConstructorAccepts(S)
 
 \* exhaustive check: history variables do not distinguish states
-StateView == <<cfg, call, reqs, mult, Returned, ncalls>>
+StateView == <<cfg, dep, call, reqs, mult, Returned, ncalls>>
 
 (* --- export --- *)
 B(b) == IF b.p THEN b.v ELSE -1
 CfgJson == [i \in 1..Len(cfg) |-> <<B(cfg[i].lower), B(cfg[i].upper)>>]
 
 \* every completed single call as one case
-ExportView == <<cfg, call, reqs, mult, Returned, ncalls, last>>
+ExportView == <<cfg, dep, call, reqs, mult, Returned, ncalls, last>>
 ExportCase == (last # None /\ last.k = "submit" /\ ncalls = 1) =>
-                 PrintT(<<"TCASE", ToJson([shards |-> CfgJson, step |-> last])>>)
+                 PrintT(<<"TCASE", ToJson([shards |-> CfgJson, dep |-> dep, step |-> last])>>)
 ExportRoots == (last # None /\ last.k = "roots" /\ ncalls = 1) =>
-                 PrintT(<<"RCASE", ToJson([shards |-> CfgJson, step |-> last])>>)
+                 PrintT(<<"RCASE", ToJson([shards |-> CfgJson, dep |-> dep, step |-> last])>>)
 \* sequences of submissions (pacing): the whole behaviour
-SeqView == <<cfg, call, reqs, mult, Returned, ncalls, last, hist>>
-ExportSeq == (last # None /\ ncalls = MaxCalls) => PrintT(<<"TBEH", ToJson([shards |-> CfgJson, steps |-> hist])>>)
+SeqView == <<cfg, dep, call, reqs, mult, Returned, ncalls, last, hist>>
+ExportSeq == (last # None /\ ncalls = MaxCalls) => PrintT(<<"TBEH", ToJson([shards |-> CfgJson, dep |-> dep, steps |-> hist])>>)
 =============================================================================
